@@ -143,7 +143,7 @@ func (c *Contract) AllTags() []string {
 
 var keywords = map[string]bool{"func": true, "requires": true, "ensures": true, "assigns": true, "nopanic": true,
 	"inline": true, "trusted": true, "loop": true, "at": true, "spec": true, "pred": true, "ghost": true,
-	"lemma": true, "memwrites": true, "tags": true, "let": true, "guarded": true, "invariant": true, "opaque": true, "deadreturn": true}
+	"lemma": true, "assumption": true, "memwrites": true, "tags": true, "let": true, "guarded": true, "invariant": true, "opaque": true, "deadreturn": true}
 
 // Guard: fields of the receiver that may only be accessed while Mutex is held.
 type Guard struct {
@@ -155,7 +155,16 @@ type Guard struct {
 var tagRe = regexp.MustCompile(`^\[([A-Z0-9, ]+)\]\s*`)
 var labelRe = regexp.MustCompile(`^([A-Za-z_][A-Za-z0-9_]*):(?:[^:]|$)`)
 
+// Assumption: a named, unchecked assumption a property's proof rests on
+// (`//@ assumption [tags] NAME: text`); echoed into the evidence of every
+// property it is tagged with.
+type Assumption struct {
+	Tags []string
+	Text string
+}
+
 type contractSet struct {
+	assumptions []*Assumption
 	contracts map[string]*Contract
 	specs     map[string]*SpecFn
 	ghosts    map[string]*GhostField
@@ -508,6 +517,9 @@ func (cs *contractSet) parseFile(root, file string) error {
 			}
 			gf := &GhostField{Owner: pkg + "." + on[0], Name: on[1], Type: te}
 			cs.ghosts[gf.Owner+"."+gf.Name] = gf
+		case "assumption":
+			tags, r2 := parseTags(rest)
+			cs.assumptions = append(cs.assumptions, &Assumption{Tags: tags, Text: strings.TrimSpace(r2)})
 		case "lemma":
 			tags, r2 := parseTags(rest)
 			i := strings.Index(r2, ":")
